@@ -413,8 +413,9 @@ Proof.
   change (ttok lex (s_lt ++ i ++ s_gt)) with tok in Hcand, Hsuf. rewrite Hcand, Hsuf, ns_link.
   destruct (existsb (fun w => contains (snd w) tok) wired) eqn:Ens; [reflexivity|].
   rewrite Hb. destruct (e_base e) as [bs|]; [|reflexivity].
-  cbn [negb andb is_some] in Hrc. change ttl_dt_abs_start with http.
-  destruct (prefixb http i); [reflexivity | discriminate].
+  unfold is_absolute. change ttl_scheme_test_datatypes with true. cbv iota.
+  cbn [ref_wf] in Hwf. apply andb_true_iff in Hwf. destruct Hwf as (_ & Hsch).
+  rewrite <- (app_nil_r i) at 1. rewrite (has_scheme_model i [] Hsch). reflexivity.
 Qed.
 
 Lemma typed_rel e s lex x u :
@@ -429,14 +430,16 @@ Proof.
   destruct (first_wired wired tok) as [(q, ns)|] eqn:Ew; [discriminate|].
   destruct (existsb (fun w => contains (snd w) tok) wired) eqn:Ens; [cbn in Hrc; discriminate|].
   cbn [when app] in Hrc. rewrite Hu in Hrc.
-  destruct (prefixb http x) eqn:Eh; [cbn in Hrc; discriminate|]. cbn [when app] in Hrc.
   destruct (str_eqb u (bs ++ x)) eqn:Eu; [|cbn in Hrc; discriminate]. apply str_eqb_eq in Eu. subst u.
+  assert (Eh : starts_with_scheme x = false).
+  { apply no_scheme_no_colon. apply contains_colon_false. cbn [ref_wf] in Hwf. apply andb_true_iff in Hwf.
+    destruct Hwf as (_ & Hnc). apply negb_true_iff in Hnc. exact Hnc. }
   destruct (typed_cand lex x Hm HRq) as (Hcand & Hsuf).
   unfold decide_literal_type. unfold tok at 1 2. rewrite render_typed.
   rewrite (typed_arroba lex _ HRq HRa), (typed_contains lex _). cbn [negb].
   rewrite dt_table_link, Ew.
   change (ttok lex (s_lt ++ x ++ s_gt)) with tok in Hcand, Hsuf. rewrite Hcand, Hsuf, ns_link, Ens.
-  rewrite Hb. change ttl_dt_abs_start with http. rewrite Eh. reflexivity.
+  rewrite Hb. unfold is_absolute. change ttl_scheme_test_datatypes with true. cbv iota. rewrite Eh. reflexivity.
 Qed.
 
 (** ** string literals as a whole *)
